@@ -17,6 +17,7 @@ EXPLANATION = (
     "from the evaluator. Not decided: equality of values before/after (runtime)."
     " (R5, re-keyed) each site that stores the result of the shallow detach helper is keyed by the provenance of what it hands to the helper (callees feeding it and number of plain copies through named variables), so a new aliasing path is a new violation rather than hidden behind the known one; (R3) also accepts validate-all-then-insert-all over the same sequence; (R7) every path from FunctionScope::enter to a return of the caller restores the caller's symbol table, plan and environment (Drop of the guard or an explicit exit)."
     " (R8) operand roles of the assignment compilers: the value evaluated from the statement's right-hand side reaches the kernel's source field and the looked-up variable its sink field, on the native and on the fallback (Value-level) path."
+    ' (R9) a failing indexed assignment changes nothing: every assignment kernel converts its 1-based index with the overflow-checked `ix - 1` (index 0 is rejected), never with a saturating / wrapping / clamped form.'
 )
 
 INTERP = "mech_interpreter.lib"
@@ -188,6 +189,8 @@ def run(F, rep, tier):
     scope_restored_on_every_exit(F, rep, "C05-R7")
     from rules.loopshape import assign_compiler_operand_roles
     assign_compiler_operand_roles(F, rep, "C05-R8")
+    from rules.loopshape import assign_index_zero_rejected
+    assign_index_zero_rejected(F, rep, "C05-R9")
 
 
 shallow_sites = defaultdict(list)
